@@ -144,7 +144,7 @@ Inductive ostmt := OIfNotOnReturn | OCheck | ORetIfErr | OLock | ODeferUnlock | 
 Inductive estmt := ECheck | ERetIfErr | ELock | EUnlock | EDeferUnlock | EDeferCancel | EIfOnConflict | EMonReset | ECmdReset
                  | ELogStart | ERunMonitoring | EGetCmd | ERunningTrue | ERun | ECtxErrWrap | ERunningFalse | ELogEnd | EReturn.
 (* the monitor goroutine of subprocessMonitoring.runProcessMonitoring *)
-Inductive mstmt := MOnTrue | MWaitCtx | MCancel | MStop | MStopGuarded | MOnFalse.
+Inductive mstmt := MOnTrue | MWaitCtx | MCancel | MStop | MStopGuarded | MOnFalse | MOnTrueSync.
 
 (* Subprocess.Start *)
 Inductive tstmt := TIfOnReturn | TLock | TUnlock | TDeferUnlock | TCheck | TRetIfErr | TReset | TRunMonitoring | TGetCmd | TCmdStart
@@ -167,7 +167,7 @@ Definition ocode (o : ostmt) : nat := match o with OIfNotOnReturn => 0 | OCheck 
 Definition ecode (e : estmt) : nat := match e with ECheck => 0 | ERetIfErr => 1 | ELock => 2 | EUnlock => 3 | EDeferUnlock => 4
   | EDeferCancel => 5 | EIfOnConflict => 6 | EMonReset => 7 | ECmdReset => 8 | ELogStart => 9 | ERunMonitoring => 10 | EGetCmd => 11
   | ERunningTrue => 12 | ERun => 13 | ECtxErrWrap => 14 | ERunningFalse => 15 | ELogEnd => 16 | EReturn => 17 end.
-Definition mcode (m : mstmt) : nat := match m with MOnTrue => 0 | MWaitCtx => 1 | MCancel => 2 | MStop => 3 | MStopGuarded => 4 | MOnFalse => 5 end.
+Definition mcode (m : mstmt) : nat := match m with MOnTrue => 0 | MWaitCtx => 1 | MCancel => 2 | MStop => 3 | MStopGuarded => 4 | MOnFalse => 5 | MOnTrueSync => 6 end.
 
 (* [x] occurs in [l]; the part of [l] before / after the first [x] *)
 Definition has (x : nat) (l : list nat) : bool := existsb (Nat.eqb x) l.
